@@ -1,10 +1,80 @@
-"""C03 - engine property; theorems in coq/Props/C03.v over Model/Deps.v, trace acceptance against mg.Deps & co."""
+"""C03 - a failed dependency fails every dependent, always.
+
+Theorems in coq/Props/C03.v over Model/Deps.v; trace acceptance against mg.Deps & co (depslib).
+In addition the exit-status combination rule is tied to the source MECHANICALLY: harness/extract
+translates mg/deps.go's changeExit into Gallina on every run and Coq must prove it equal to the
+model's changeExit for all integers (DESIGN.md section 3.5); when that proof fails the check
+looks for the differing code pair and replays it against the real engine."""
+import re
 from vlib import *
 import depslib
 from checks.c01 import depslib_trusted
+
+AGREE = """From Mage Require Import Base.Strs Model.Deps.
+From Coq Require Import Lia ZArith.
+%s
+Theorem extracted_changeExit_agrees : forall a b, x_changeExit a b = changeExit a b.
+Proof.
+  intros a b; unfold x_changeExit, changeExit.
+  repeat match goal with
+         | |- context [Z.eqb ?x ?y] => destruct (Z.eqb_spec x y)
+         | |- context [Z.ltb ?x ?y] => destruct (Z.ltb_spec x y)
+         | |- context [Z.leb ?x ?y] => destruct (Z.leb_spec x y)
+         end; cbn [negb andb orb]; try reflexivity; try lia; try congruence.
+Qed.
+Print Assumptions extracted_changeExit_agrees.
+"""
+
+SEARCH = """From Mage Require Import Base.Strs Model.Deps.
+%s
+Definition grid : list Z := [0; 1; 2; 3; 7; 99; 255; 256; -1]%%Z.
+Definition D := Eval vm_compute in
+  flat_map (fun a => flat_map (fun b => if Z.eqb (x_changeExit a b) (changeExit a b) then [] else [(a, b, x_changeExit a b, changeExit a b)]) grid) grid.
+Print D.
+"""
+
+
+def pair_program(a, b):
+    """root: guarded Deps(n0, n1) where n0 fails with mg.Fatal(a) and n1 with mg.Fatal(b); then the same pair in the other order"""
+    def node(k, code):
+        return {"kind": 1, "slot": k, "calls": [], "result": {"t": "fatal", "code": code}}
+    return {"nodes": [node(0, a), node(1, b)],
+            "roots": [{"ctx": "bg", "calls": [{"style": "par", "ctx": "bg", "deps": [0, 1], "guarded": True},
+                                             {"style": "par", "ctx": "bg", "deps": [1, 0], "guarded": True}]}],
+            "prio": [], "quiet_us": 250, "free": True, "verbose": False}
+
+
+def translated_tie(ctx):
+    """returns extra programs to run against the real engine when the translated function differs from the model"""
+    ex = go_build_harness(ctx, "extract", tags=None)
+    rc, out, err = sh([ex, os.path.join(REPO, "mg", "deps.go"), "changeExit", "x_changeExit"])
+    ctx.coverage["changeExit_extracted"] = (rc == 0)
+    if rc != 0:
+        # fail-soft: a refactoring the translator does not understand; the behavioural tie alone decides
+        ctx.notes.append("harness/extract could not translate changeExit (%s); only the behavioural tie applies" % err.strip()[:200])
+        return []
+    ctx.obligations += 1
+    rc2, log = ctx.coq_eval("extracted_C03", AGREE % out)
+    if rc2 == 0:
+        ctx.discharged += 1
+        ctx.trusted_base.append("harness/extract (Go -> Gallina translator for changeExit): extracted_changeExit_agrees proved for all integers on this run")
+        return []
+    ctx.log("translated changeExit no longer provably equals the model's:\n" + out)
+    rc3, log3 = ctx.coq_eval("extracted_C03_search", SEARCH % out)
+    pairs = [(int(a), int(b)) for a, b in re.findall(r"\((-?\d+),\s*(-?\d+),\s*-?\d+,\s*-?\d+\)", re.sub(r"%Z|\s+", " ", log3))]
+    pairs = [(a, b) for a, b in pairs if 1 <= a <= 255 and 1 <= b <= 255][:6]
+    ctx.coverage["changeExit_differs_on"] = pairs
+    ctx.pending_tie = {"kind": "theorem-no-longer-checks", "theorem": "extracted_changeExit_agrees (mg/deps.go changeExit, translated, = Model/Deps.changeExit)",
+                       "translated": out, "differs_on": pairs, "log": log[-800:]}
+    return [pair_program(a, b) for a, b in pairs]
 
 
 def run(ctx):
     ctx.prove(["Props/%s.vo" % ctx.pid, "Run/eval_deps.vo"])
     ctx.trusted_base += depslib_trusted()
-    depslib.run_engine_check(ctx, ctx.pid, 400 if ctx.quick else 6000, serial_bias=(ctx.pid == "C13"))
+    ctx.pending_tie = None
+    extra = translated_tie(ctx)
+    depslib.run_engine_check(ctx, ctx.pid, 400 if ctx.quick else 6000, extra_programs=extra)
+    if ctx.pending_tie and not ctx.violations:
+        # the proof obligation broke but neither the oracle nor trace acceptance found a failing run
+        ctx.violation(ctx.pending_tie, found_input=False)
